@@ -17,6 +17,16 @@ CHECKS = {
             "Same engine as C01 with different seeds: SolveFailure iff the enumerated reference solution set is empty; members pinned must be accepted, non-members rejected; any non-SolveFailure exception from inside the library on a valid program is a violation (bucketed by exception type and innermost library frame); wide programs are satisfiable by construction (anchored at a hidden assignment) or contradictory by construction.",
             "Satisfiability is exact only for programs whose random space is <= 2^13 assignments; wide programs rely on construction. Diagnostic flags at defaults.",
             "5/C02"),
+    "C03": ("exploration",
+            "Hypothesis RuleBasedStateMachine over one object against a dict model (values, modes, rangelist and list contents); enumerated solution sets per call",
+            "Rules assign fields, toggle rand_mode, edit a mutable rangelist and a non-random list, and call randomize / randomize_with / vsc.randomize / vsc.randomize_with incl. free-standing calls over field subsets; after every call non-random fields must read the model's value (success or failure), the result must satisfy the reference under the CURRENT constants and contents, and SolveFailure iff the enumerated set is empty.",
+            "rand_mode is driven on scalar fields only; values of random fields after a failed call are not compared.",
+            "5/C03"),
+    "C20": ("exploration",
+            "generated ordered systems; enumerated truth + pinned probes; seeded draw campaigns with exact binomial uniformity tests gated by the hook's inferred range; metamorphic variant; control without the directive",
+            "Constraints hold and satisfiability is unchanged under solve_order (free draws, pinned probes), pinning the earlier variable to each feasible value succeeds, the earlier variable is uniform over its feasible values when these fill its inferred range, also for a variant with different companion counts; the same system without the directive is drawn as a control to show the test has power.",
+            "Uniformity only under the stated precondition (hook shows single-interval range = feasible set); alpha 1e-9 split over 2000 tests.",
+            "5/C20"),
     "C05": ("exploration",
             "Hypothesis-generated hard+soft programs; exact greedy-by-priority reference and result-only maximality over the enumerated solution space",
             "Small-domain programs mixing hard and soft statements (nested under if/else/implies, two class blocks, inline softs, call sequences). The hard solution set is enumerated; the result must be in it, must be maximal w.r.t. the soft terms, and must lie in the greedy set for an order consistent with the stated partial priority order; hard-satisfiable systems must never fail.",
